@@ -258,10 +258,12 @@ static void check_solver_dispatch(int rule, vf::Case& c)
 
 // One decoded case. mode 0: alphabet vector (the form the exhaustive layer enumerates),
 // mode 1: long vector with heavy ties, mode 2: solver dispatch, mode 3: values m * 10^e over the whole exponent range of double
-// (denormals up to the largest finite values, in particular magnitudes whose squares or sums of squares leave the range).
+// (denormals up to the largest finite values, in particular magnitudes whose squares or sums of squares leave the range),
+// mode 4: NEAR ties - every value is a base value moved by -3..3 units in the last place (nextafter), so that keys which differ by one
+// or two ulp sit next to keys that are exactly equal: an ordering that treats 'almost equal' keys as equal is wrong here.
 static void run_case(vf::Draw& d, vf::Case& c)
 {
-    int mode = (int) d.range("mode", 0, 3);
+    int mode = (int) d.range("mode", 0, 4);
     int rule = (int) d.range("rule", 0, 8);
     if (mode == 2)
     {
@@ -271,7 +273,7 @@ static void run_case(vf::Draw& d, vf::Case& c)
     }
     int type = (int) d.range("type", 0, 1);
     int api = (int) d.range("api", 0, 2);
-    Index len = (Index) d.dim("len", 0, mode == 0 ? 7 : (mode == 3 ? 24 : 200));
+    Index len = (Index) d.dim("len", 0, mode == 0 ? 7 : (mode >= 3 ? 24 : 200));
     // mode 3: a base exponent for the vector (tiny band, huge band, anywhere) and a small offset per value
     long base_exp = 0;
     if (mode == 3)
@@ -286,6 +288,21 @@ static void run_case(vf::Draw& d, vf::Case& c)
         double x = (double) m * std::pow(10.0, (double) e);
         return std::isfinite(x) ? x : (m < 0 ? -std::numeric_limits<double>::max() : std::numeric_limits<double>::max());
     };
+    // mode 4: one base magnitude per vector; each value is +-base (or +-base/2 ... in the other component) moved by a few ulp
+    static const double NEAR_BASE[6] = {1.0, 3.0, 5.0, 1e-3, 7e5, 0.1};
+    double near_base = 1.0;
+    if (mode == 4)
+    {
+        near_base = NEAR_BASE[d.range("near_base", 0, 5)];
+        c.cls("near_ties");
+    }
+    auto near = [&](double b) {
+        double x = d.flag("neg") ? -b : b;
+        long k = d.range("ulps", -3, 3);
+        for (long i = 0; i < std::labs(k); i++)
+            x = std::nextafter(x, k > 0 ? std::numeric_limits<double>::infinity() : -std::numeric_limits<double>::infinity());
+        return x;
+    };
     Index extra = (api == 2) ? (Index) d.range("extra", 1, 3) : 0;
     std::ostringstream os;
     os << (type ? "complex" : "real") << " rule=" << RULE_NAMES[rule] << " api=" << api << " len=" << len << " vals=[";
@@ -299,6 +316,8 @@ static void run_case(vf::Draw& d, vf::Case& c)
                 x = REAL_ALPHA[d.range("a", 0, 6)];
             else if (mode == 3)
                 x = wide();
+            else if (mode == 4)
+                x = near(near_base);
             else
                 x = (double) d.range("v", -6, 6) * (d.flag("half") ? 0.5 : 1.0);
             vals.push_back(x);
@@ -321,6 +340,13 @@ static void run_case(vf::Draw& d, vf::Case& c)
             else if (mode == 3)
             {
                 double re = wide(), im = wide();
+                x = cd(re, im);
+            }
+            else if (mode == 4)
+            {
+                // 3-4-5 multiples: |x| = 5 base / 3 exactly before the ulp moves, so magnitudes tie or nearly tie as well
+                bool swap = d.flag("swap");
+                double re = near(near_base * (swap ? 4.0 : 3.0)), im = near(near_base * (swap ? 3.0 : 4.0));
                 x = cd(re, im);
             }
             else
